@@ -318,7 +318,6 @@ PROPS["C21"] = {
 }
 
 PROPS["C08"] = {
-    "ready": False,
     "level": "other",
     "technique": "Kani proof harnesses on the real VO-bit lookups; find_object_from_internal_pointer verified modularly against the contract of find_prev_non_zero_value that C22 discharges (CBMC); function level, bounded window",
     "anchors": [("find_object_from_internal_pointer", "src/util/metadata/vo_bit/mod.rs"), ("is_vo_bit_set_for_addr", "src/util/metadata/vo_bit/mod.rs"),
@@ -343,13 +342,12 @@ PROPS["C08"] = {
 }
 
 PROPS["C17"] = {
-    "ready": False,
     "level": "other",
     "technique": "Kani proof harnesses on the real object_forwarding functions for every metadata placement of the harness binding family (CBMC); sequential kernel only",
     "anchors": [("attempt_to_forward", "src/util/object_forwarding.rs"), ("forward_object", "src/util/object_forwarding.rs"),
                 ("spin_and_get_forwarded_object", "src/util/object_forwarding.rs"), ("read_forwarding_pointer", "src/util/object_forwarding.rs"),
                 ("write_forwarding_pointer", "src/util/object_forwarding.rs")],
-    "kani": {"prefix": "c17_", "files": ["c17_forwarding.rs", "obj.rs", "side.rs", "vm.rs"], "timeout_quick": 900, "timeout_thorough": 2400},
+    "kani": {"prefix": "c17_", "files": ["c17_forwarding.rs", "obj.rs", "side.rs", "vm.rs", "interference.rs"], "timeout_quick": 1500, "timeout_thorough": 2400},
     "functions": ["object_forwarding::{attempt_to_forward, get_forwarding_status, forward_object, write_forwarding_pointer, read_forwarding_pointer, "
                   "spin_and_get_forwarded_object, clear_forwarding_bits, is_forwarded, is_forwarded_or_being_forwarded, forwarding_bits_offset_in_forwarding_pointer}"],
     "explanation": "SEQUENTIAL KERNEL ONLY. Each protocol step is verified as a state transformer on the forwarding bits / forwarding word for three placements "
@@ -358,21 +356,24 @@ PROPS["C17"] = {
                    "never 00, and changes nothing (so for any sequential order of N tracers exactly one copies); forward_object calls ObjectModel::copy exactly once, leaves "
                    "FORWARDED, and read_forwarding_pointer / spin_and_get_forwarded_object (stale 10 or 11) return exactly the winner's reference for every reference "
                    "representable under FORWARDING_POINTER_MASK; with bits 00 a tracer gets the unmoved object; only the forwarding bits and the pointer word (its masked part when "
-                   "the bits live elsewhere) change. Not decided by this family and therefore assumed: atomicity of the CAS / stores and all overlapping interleavings.",
+                   "the bits live elsewhere) change. INTERFERENCE CONTRACT: attempt_to_forward is additionally verified against a rely/guarantee-style contract of "
+                   "MetadataSpec::compare_exchange_metadata that allows finitely many spurious failures reporting the unchanged field value (what a byte-wide cmpxchg does when another "
+                   "thread changes a neighbouring field of the byte): it reports 'not forwarded' only if this very call moved 00 -> BEING_FORWARDED. "
+                   "Not decided by this family and therefore assumed: atomicity of a single CAS / store and genuinely overlapping interleavings.",
     "bounds": ["non-overlapping executions only; three metadata layouts"],
     "assumptions": ["atomicity of each RMW and memory orderings (sequential semantics)", "new references fit FORWARDING_POINTER_MASK (8-byte aligned, below 2^56)",
                     "ObjectModel::copy returns a valid reference (symbolic) and does not touch the old object's forwarding state"],
-    "trusted_base": ["kani::stub of global_side_metadata_base_address", "core::sync::atomic as modelled by Kani/CBMC"],
+    "trusted_base": ["kani::stub of global_side_metadata_base_address", "core::sync::atomic as modelled by Kani/CBMC",
+                     "contract stub interference::cas_contract of MetadataSpec::compare_exchange_metadata (interference harnesses only; the sequential harnesses run the real CAS, whose field semantics C20/C23 prove)"],
     "not_covered": ["overlapping interleavings (one copier / no torn reads under races)", "CopySpace / ImmixSpace trace_object callers"],
 }
 
 PROPS["C18"] = {
-    "ready": False,
     "level": "other",
     "technique": "Kani proof harnesses on the real mark/log/pin transition functions for every metadata placement of the harness binding family (CBMC); sequential kernel only",
     "anchors": [("test_and_mark", "src/util/metadata/mark_bit.rs"), ("pin_object", "src/util/metadata/pin_bit.rs"), ("log_object", "src/plan/barriers.rs"),
                 ("compare_exchange_metadata", "src/util/metadata/global.rs")],
-    "kani": {"prefix": "c18_", "files": ["c18_transitions.rs", "obj.rs", "side.rs", "vm.rs"], "timeout_quick": 900, "timeout_thorough": 2400,
+    "kani": {"prefix": "c18_", "files": ["c18_transitions.rs", "obj.rs", "side.rs", "vm.rs", "interference.rs"], "timeout_quick": 900, "timeout_thorough": 2400,
              "features_quick": [["object_pinning"]], "features_thorough": [["object_pinning"], []]},
     "functions": ["MarkState::{new, is_marked, test_and_mark, on_global_release}", "VMLocalMarkBitSpec::{mark, is_marked}",
                   "VMLocalPinningBitSpec::{pin_object, unpin_object, is_object_pinned}", "ObjectBarrier::{log_object, object_is_unlogged}",
@@ -381,17 +382,19 @@ PROPS["C18"] = {
                    "ObjectBarrier::log_object; pin / unpin) and each metadata placement (on the side at a symbolic field position; header bits above the forwarding word; header byte "
                    "below the object reference), with all surrounding header and side-table bits symbolic: the first caller observes the transition as its own iff the object "
                    "was in the source state, the final state is the transitioned state, no bit outside the field changes, and an immediately following second call returns false "
-                   "and changes nothing. The load-then-CAS retry loops exit after one iteration without interference (unwinding assertion on). What this family cannot decide, and "
-                   "what therefore remains assumed: that each compare-exchange is one atomic step and the outcome under overlapping executions (Kani has no threads).",
+                   "and changes nothing. The load-then-CAS retry loops exit after one iteration without interference (unwinding assertion on). INTERFERENCE CONTRACT: "
+                   "MarkState::test_and_mark and ObjectBarrier::log_object are additionally verified against a contract of compare_exchange_metadata that allows finitely many spurious "
+                   "failures (a neighbouring field of the byte changed concurrently): the caller is told the transition was its own iff this call performed it. What this family cannot decide, and "
+                   "what therefore remains assumed: that each compare-exchange is one atomic step and the outcome under genuinely overlapping executions (Kani has no threads).",
     "bounds": ["non-overlapping executions only (two sequential callers); three metadata layouts"],
     "assumptions": ["atomicity of each RMW and memory orderings (sequential semantics)", "each caller runs to completion before the next starts"],
-    "trusted_base": ["kani::stub of global_side_metadata_base_address", "core::sync::atomic as modelled by Kani/CBMC"],
+    "trusted_base": ["kani::stub of global_side_metadata_base_address", "core::sync::atomic as modelled by Kani/CBMC",
+                     "contract stub interference::cas_contract of MetadataSpec::compare_exchange_metadata (interference harnesses only)"],
     "not_covered": ["overlapping interleavings of the racing threads", "ImmixSpace::attempt_mark and LargeObjectSpace::test_and_mark (need a space instance)",
                     "mark_byte_as_unlogged (documented to touch neighbouring objects' bits)"],
 }
 
 PROPS["C24"] = {
-    "ready": False,
     "level": "other",
     "technique": "Kani proof harnesses over the real spec tables, side_first/side_after constructors and reserved-range computation (CBMC); per-configuration activation sets are not under contract",
     "anchors": [("side_metadata_offset_after", "src/util/metadata/side_metadata/global.rs"), ("define_side_metadata_specs", "src/util/metadata/side_metadata/spec_defs.rs"),
@@ -415,7 +418,6 @@ PROPS["C24"] = {
 }
 
 PROPS["C26"] = {
-    "ready": False,
     "level": "other",
     "technique": "Kani: inductive-step proof harnesses over every table satisfying an executable representation invariant (6-unit lists), plus complete bit-field accessor harnesses, on the real FreeList code (CBMC)",
     "anchors": [("alloc", "src/util/freelist.rs"), ("free", "src/util/freelist.rs"), ("__coalesce", "src/util/freelist.rs"), ("add_to_free", "src/util/freelist.rs"),
@@ -433,7 +435,7 @@ PROPS["C26"] = {
                    "(and then changes nothing); free marks the run free and merges it with exactly the free neighbours not separated by an uncoalescable boundary; size reports the "
                    "run length; all other runs are unchanged (symbolic index). The constructor establishes wf with the documented grain-sized runs. By induction on the history this "
                    "covers alloc/free sequences of ANY length; the remaining bound is the list size (6 units, <= 2 heads), hence level 'other'.",
-    "bounds": ["list size: 6 units, 1 or 2 heads (loops unwound to 9, unwinding assertions on); no bound on the history length (inductive step)"],
+    "bounds": ["list size: 6 units; 1 head in the quick tier, 1 and 2 heads in the thorough tier for alloc / alloc_from_unit / free (constructor, child list and bit fields: both tiers) (loops unwound to 20, unwinding assertions on); no bound on the history length (inductive step)"],
     "assumptions": ["free(u) is called on the first unit of an allocated run (the code's own debug_assert) and alloc_from_unit on the first unit of a run",
                     "runs merged by free belong to the calling list (lists sharing a table are separated by uncoalescable boundaries)",
                     "set_uncoalescable / clear_uncoalescable are applied to first units of runs"],
@@ -442,7 +444,6 @@ PROPS["C26"] = {
 }
 
 PROPS["C27"] = {
-    "ready": False,
     "level": "other",
     "technique": "Kani proof harnesses on the real RawMemoryFreeList growth code with the OS mmap call stubbed by a recorder (CBMC): growth/capacity arithmetic complete and memory-free; growth on a real table as concrete scenarios (thorough tier)",
     "anchors": [("grow_freelist", "src/util/raw_memory_freelist.rs"), ("grow_list_by_blocks", "src/util/raw_memory_freelist.rs"),
@@ -465,7 +466,6 @@ PROPS["C27"] = {
 }
 
 PROPS["C28"] = {
-    "ready": False,
     "level": "other",
     "technique": "Kani proof harnesses (inductive step over two consecutive symbolic requests) on the real PageAccounting / MonotonePageResource / Map64 (CBMC)",
     "anchors": [("PageAccounting", "src/util/heap/accounting.rs"), ("alloc_pages", "src/util/heap/monotonepageresource.rs"), ("commit_pages", "src/util/heap/pageresource.rs"),
@@ -482,7 +482,7 @@ PROPS["C28"] = {
                    "reserved == committed == pages granted after each grant and a failed request leaves committed unchanged. Discontiguous over the real Map64 (default 64-bit layout, any "
                    "space index): grants are chunk-/page-aligned, inside the space of the descriptor and resolve to that descriptor in the VM map, disjoint, new chunks are taken only "
                    "when the current chunk run cannot hold the request, counters exact. Monotone resources never release individual grants, so 'live grants' = all grants.",
-    "bounds": ["two consecutive requests (inductive step); request sizes <= 2^25 pages (contiguous) / 3000 pages (discontiguous)"],
+    "bounds": ["two consecutive requests (inductive step); request sizes <= 2^25 pages (contiguous) / one chunk = 1024 pages (discontiguous)"],
     "assumptions": ["single-threaded histories (the Mutex is taken but mutual exclusion is not what is verified)"],
     "trusted_base": ["std::sync::Mutex as modelled by Kani"],
     "not_covered": ["FreeListPageResource and BlockPageResource (need mmapper, VM threads, live spaces); their substrates are C26 (free lists) and C19 (block pool)",
@@ -509,7 +509,6 @@ PROPS["C31"] = {
 }
 
 PROPS["C34"] = {
-    "ready": False,
     "level": "other",
     "technique": "Kani proof harnesses on the real immix block-state encoding, line arithmetic, hole search and line marking (CBMC); loops bounded by the code constant Block::LINES",
     "anchors": [("get_next_available_lines", "src/policy/immix/immixspace.rs"), ("mark_lines_for_object", "src/policy/immix/line.rs"),
@@ -542,21 +541,19 @@ PROPS["C40"] = {
                 ("revisitable_group_by", "src/util/rust_util/rev_group.rs")],
     "kani": {"prefix": "c40_", "files": ["c40_revgroup.rs"], "timeout_quick": 900, "timeout_thorough": 2400},
     "functions": ["RevisitableGroupByForIterator::revisitable_group_by", "<RevisitableGroupBy as Iterator>::next", "<RevisitableGroup as Iterator>::next "
-                  "(instantiated on slice::Iter<u8> and on Copied<Flatten<Copied<slice::Iter<&[u8]>>>>)"],
+                  "(instantiated on slice::Iter<u8>)"],
     "explanation": "BOUNDED (input length <= 5 quick / 7 thorough), complete within the bound: the real iterators are run over a slice of symbolic bytes of symbolic "
-                   "length with key function x & m for a symbolic mask m (so every partition shape of <= 5 (7) items into runs occurs), and over two "
-                   "flattened slices with a symbolic cut. Checked: the items yielded by the groups, in order, are exactly the input; each item's key equals "
+                   "length with key function x & m for a symbolic mask m (so every partition shape of <= 5 (7) items into runs occurs). Checked: the items yielded by the groups, in order, are exactly the input; each item's key equals "
                    "its group's reported key; each group is non-empty; reported len == number of items the group yields; adjacent groups have different "
                    "keys; empty input yields no group. Generic `Iterator + Clone` code with FnMut closures is outside what Verus accepts for extraction, so the "
                    "length bound remains and the level is 'other'.",
     "bounds": ["input length <= 5 in the quick tier and <= 7 in the thorough tier (loops unwound to length + 3, unwinding assertions on)", "item type u8, key type u8 (the code is parametric in both)"],
     "assumptions": ["key functions are pure (the harness' key is x & m)"],
-    "trusted_base": ["core::slice::Iter / Flatten / Copied as compiled by Kani"],
-    "not_covered": ["inputs longer than 7 items (5 in the quick tier)", "impure key functions"],
+    "trusted_base": ["core::slice::Iter as compiled by Kani"],
+    "not_covered": ["inputs longer than 7 items (5 in the quick tier)", "impure key functions", "the Flatten-based instantiation used by the mmapper (a harness exists but CBMC does not finish it within 15 minutes even for 3 items; it is kept as an experiment and is not part of the check)"],
 }
 
 PROPS["C19"] = {
-    "ready": False,
     "level": "other",
     "technique": "Kani bounded proof harnesses on the real BlockQueue / BlockPool driven by one thread (CBMC); sequential histories only, bounded stand-in",
     "anchors": [("BlockQueue", "src/util/heap/blockpageresource.rs"), ("BlockPool", "src/util/heap/blockpageresource.rs"), ("push_relaxed", "src/util/heap/blockpageresource.rs"),
@@ -566,7 +563,7 @@ PROPS["C19"] = {
                   "BlockPool::{new, push, pop, flush, flush_all, len, iterate_blocks, add_global_array}"],
     "explanation": "BOUNDED, SEQUENTIAL HISTORIES ONLY. BlockQueue: push adds exactly the block, pop returns the most recently pushed held block and removes it, None iff empty, "
                    "len == blocks held, iterate yields exactly the held blocks, replace exchanges the contents of the two queues without loss; at CAPACITY (256, code constant, concrete "
-                   "loop) the next push is refused and returns the block. BlockPool with two workers and three symbolic blocks pushed by symbolic workers: len == blocks held, "
+                   "loop) the next push is refused and returns the block. BlockPool with two workers and three symbolic blocks pushed by workers 0, 1, 0: len == blocks held, "
                    "iterate_blocks yields each once, worker-local blocks are not handed out before a flush, after flush_all every held block is popped exactly once, only pushed blocks "
                    "are popped, and the pool is then empty. Thorough tier: 257 pushes by one worker (queue overflow moves the full queue to the global list), all 257 blocks popped "
                    "exactly once. Concurrent push/pop/flush histories -- the quantifier of the property -- are outside this family (Kani has no threads).",
